@@ -142,9 +142,10 @@ pub fn varlink_bridge<S: ?Sized + AsRef<str>>(address: &S) -> Result<(Child, Box
 
     let executable = address.as_ref();
     let (stream0, stream1) = UnixStream::pair().map_err(map_context!())?;
-    let fd = stream1.into_raw_fd();
-    let childin = unsafe { ::std::fs::File::from_raw_fd(fd) };
-    let childout = unsafe { ::std::fs::File::from_raw_fd(fd) };
+    // one descriptor each for the child's stdin and stdout
+    let stream2 = stream1.try_clone().map_err(map_context!())?;
+    let childin = unsafe { ::std::fs::File::from_raw_fd(stream1.into_raw_fd()) };
+    let childout = unsafe { ::std::fs::File::from_raw_fd(stream2.into_raw_fd()) };
 
     let child = Command::new("sh")
         .arg("-c")
